@@ -1,10 +1,23 @@
 """C13 - retain removes only what its predicate rejected; retain_force always removes (sequential core in mode B +
 re-entrant replacement from inside the predicate)."""
 from ._seq import run_property
+from ._conc import conc_extra
+from ..concheck import ConcScenario
+
+
+def conc(tier):
+    th = tier == 'thorough'
+    return [
+        # retain_force must remove every rejected key also when the bin head changes while it waits for the bin lock
+        ConcScenario('list/retain_force-vs-remove-head', hasher='const', capacity=2, prefill=[0, 1, 2], threads=[[('retain_force_none',)], [('remove', 0)]], preemptions=2),
+        ConcScenario('list/retain_force-vs-remove-tail', hasher='const', capacity=2, prefill=[0, 1, 2], threads=[[('retain_force_none',)], [('remove', 2)]], preemptions=2),
+        ConcScenario('resize/retain_force-vs-insert', hasher='identity', capacity=1, prefill=[0], threads=[[('retain_force_none',)], [('insert', 1)]], preemptions=2, yield_loads=th),
+    ]
 
 
 def run(tier: str) -> int:
-    return run_property('C13', tier, 'other',
+    return run_property('C13', tier, 'model_checking',
                         {'operations': 'retain / retain_force over list bins (2-bin table, identity/constant/arbitrary hash) and a 10-node tree bin; the predicate\'s answers are symbolic Booleans; in the replace-inside-predicate scenarios the predicate replaces the value of the entry it is inspecting (through the real insert) before answering false',
                          'oracle': 'every entry visited exactly once with its own key instance and current value; exactly the rejected entries are removed (retain: unless their value was replaced after inspection; retain_force: always)'},
-                        ['interleavings with other threads are NOT explored: the replacement between inspection and removal is produced re-entrantly from the predicate, which is the only way a single thread can reach that window'])
+                        ['interleavings with other threads are NOT explored: the replacement between inspection and removal is produced re-entrantly from the predicate, which is the only way a single thread can reach that window'],
+                        extra=conc_extra('C13', conc, None, 'retain_force removes every rejected key although the bin changes under it'))
